@@ -145,6 +145,7 @@ func rulesC05(c *Ctx) {
 	delimitedC05(c)
 	readVerbatimRule(c, "C05.readverbatim")
 	runeFaceRule(c, "C05.runeface")
+	identQuoteRule(c, "C05.identquote")
 	stringEndRule(c, "C05.strend")
 	eofMarkerRule(c, "C05.eofmarker")
 	// scanning terminates: the comment skippers end at end of input
@@ -382,6 +383,7 @@ func rulesC06(c *Ctx) {
 	tt := p.tokenTable()
 	readVerbatimRule(c, "C06.readverbatim")
 	runeFaceRule(c, "C06.runeface")
+	identQuoteRule(c, "C06.identquote")
 	argsUntouchedRule(c, "C06.argsuntouched", "QuoteIdent", "QuoteString", "IdentNeedsQuotes")
 	stringEndRule(c, "C06.strend")
 	c.Rule("C06.pure", "QuoteString, QuoteIdent and IdentNeedsQuotes (and what they call in the package) read no mutable package-level state: the quoted form depends on the value alone (a memo keyed by the joined segments answers `a.b` quoted as one name with the form computed for the two names a, b)")
@@ -1344,4 +1346,80 @@ func argsUntouchedRule(c *Ctx, rule string, names ...string) {
 			c.OK(rule, name+": store through a parameter", f.Pos(), "none")
 		}
 	}
+}
+
+// identQuoteRule: a quote met after bare identifier text ends that identifier.
+func identQuoteRule(c *Ctx, rule string) {
+	p := c.P
+	c.Rule(rule, "in scanIdent the hand-over to the quoted-string scanner happens only while nothing has been accumulated (the buffer is tested empty on the branch taken, or no buffer write can precede it): a quote that follows bare text must end that token, otherwise the text already read is dropped and `cpu\"mem\"` is the single identifier mem")
+	f := p.SSAFunc(p.Method("Scanner", "scanIdent"))
+	ss := p.SSAFunc(p.Method("Scanner", "scanString"))
+	if f == nil || ss == nil {
+		c.Unk(rule, "(*Scanner).scanIdent", 0, "anchor not found")
+		return
+	}
+	var writes []*ssa.BasicBlock
+	for _, b := range f.Blocks {
+		for _, in := range b.Instrs {
+			if call, ok := in.(*ssa.Call); ok && call.Call.StaticCallee() != nil {
+				if nm := call.Call.StaticCallee().Name(); strings.HasPrefix(nm, "Write") {
+					writes = append(writes, b)
+				}
+			}
+		}
+	}
+	n := 0
+	for _, b := range f.Blocks {
+		for _, in := range b.Instrs {
+			call, ok := in.(*ssa.Call)
+			if !ok || call.Call.StaticCallee() != ss {
+				continue
+			}
+			n++
+			key := fmt.Sprintf("(*Scanner).scanIdent: hand-over to scanString #%d", n)
+			// can a buffer write come before?
+			after := false
+			for _, w := range writes {
+				if reaches(w, b, map[int]bool{}) {
+					after = true
+				}
+			}
+			if !after {
+				c.OK(rule, key, call.Pos(), "no buffer write can precede it")
+				continue
+			}
+			// guarded by an emptiness test of the buffer
+			guarded := false
+			for d := b; d != nil && !guarded; d = d.Idom() {
+				for _, pr := range d.Preds {
+					ifi, ok := pr.Instrs[len(pr.Instrs)-1].(*ssa.If)
+					if !ok || len(d.Preds) != 1 {
+						continue
+					}
+					bo, ok := ifi.Cond.(*ssa.BinOp)
+					if !ok {
+						continue
+					}
+					lc, ok := bo.X.(*ssa.Call)
+					if !ok || lc.Call.StaticCallee() == nil || lc.Call.StaticCallee().Name() != "Len" {
+						continue
+					}
+					k, ok := bo.Y.(*ssa.Const)
+					if !ok || k.Value == nil || constant.Sign(k.Value) != 0 {
+						continue
+					}
+					onTrue := pr.Succs[0] == d
+					if (bo.Op == token.EQL && onTrue) || ((bo.Op == token.GTR || bo.Op == token.NEQ) && !onTrue) {
+						guarded = true
+					}
+				}
+			}
+			if guarded {
+				c.OK(rule, key, call.Pos(), "taken only while the buffer is empty")
+			} else {
+				c.Bad(rule, key, call.Pos(), "reachable after bare text has been accumulated, and the quoted literal is returned in its place: the characters already read belong to no token")
+			}
+		}
+	}
+	c.Floor(rule, n, 1)
 }
